@@ -19,3 +19,15 @@ package groth16
 //@   loop 1 invariant maxNbPublicCommitted >= 0 && (forall k int :: 0 <= k && k <= rangeindex ==> len(vk.PublicAndCommitmentCommitted[k]) <= maxNbPublicCommitted)
 //@   loop 2 invariant len(publicWitness) == len(vk.G1.K) - len(vk.PublicAndCommitmentCommitted) - 1 + i
 //@   loop 3 invariant offset == curve.SizeOfG1AffineUncompressed + fr.Bytes*j
+
+// ---- C09: the proof codec writes and reads the same five fields in the same order (Ar, Bs, Krs, the
+// commitments, the proof of knowledge); the ghost sequences record what the gnark-crypto encoder / decoder
+// were handed.
+//@ contract (*Proof).writeTo
+//@   props C09
+//@   requires proof != nil
+//@   ensures @fields result.1 == nil ==> nEnc(enc, 0) == 5 && encItem(enc, 0) == boxid(iface(&proof.Ar)) && encItem(enc, 1) == boxid(iface(&proof.Bs)) && encItem(enc, 2) == boxid(iface(&proof.Krs)) && encItem(enc, 3) == boxid(iface(proof.Commitments)) && encItem(enc, 4) == boxid(iface(&proof.CommitmentPok))
+//@ contract (*Proof).ReadFrom
+//@   props C09
+//@   requires proof != nil
+//@   ensures @fields err == nil ==> nDec(dec, 0) == 5 && decItem(dec, 0) == boxid(iface(&proof.Ar)) && decItem(dec, 1) == boxid(iface(&proof.Bs)) && decItem(dec, 2) == boxid(iface(&proof.Krs)) && decItem(dec, 3) == boxid(iface(&proof.Commitments)) && decItem(dec, 4) == boxid(iface(&proof.CommitmentPok))
